@@ -12,7 +12,7 @@ CONSTANTS
   AliveCheck = TRUE
   PhaseOn = {1, 2, 3, 4, 5}
   AllowCtrlC = FALSE
-  MaxNFE = 1
+  MaxNFE = 0
   AllowInvalid = FALSE
 INVARIANT ProtocolOK
 PROPERTY Termination
